@@ -256,13 +256,13 @@ struct PkgEngine : Engine {
 				HASH_ITER(hh, e->asset_hash, a, tmp) {
 					Json j = Json::object();
 					j["url"] = std::string(a->url ? a->url : ""); j["path"] = std::string(a->asset_path ? a->asset_path : "");
-					bool opened = false, ok = false, never_opened = false; std::string delivered;
+					bool opened = false, ok = false, never_opened = false, read_failed = false; std::string delivered;
 					if (dir && a->url) {
 						std::string full = a->url[0] == '/' ? std::string(a->url) : std::string(dir) + (dir[strlen(dir) - 1] == '/' ? "" : "/") + a->url;
 						bool tl = false;
 						std::string norm = simfs_normalize(full, &tl);
 						int want = nth_of_path[norm]++, seen = 0;
-						for (auto & rec : g_sim.open_log) if (rec.path == norm) { if (seen++ == want) { opened = true; ok = rec.ok; delivered = rec.delivered; } }
+						for (auto & rec : g_sim.open_log) if (rec.path == norm) { if (seen++ == want) { opened = true; ok = rec.ok; delivered = rec.delivered; read_failed = rec.ok && !rec.complete; } }
 						if (!opened) {
 							// the package builder never tried to read this asset: ask the file layer what an attempt would have delivered
 							// (the oracle then expects the member like for any other readable asset)
@@ -279,9 +279,14 @@ struct PkgEngine : Engine {
 						}
 					}
 					// scan_file strips a leading BOM from everything it reads
+					// scan_file strips a leading byte-order mark from everything it reads, assets included; a builder that stores the bytes as they are is
+					// just as consistent, so the oracle accepts either form
+					std::string raw_delivered = delivered;
 					if (delivered.compare(0, 3, "\xef\xbb\xbf") == 0) delivered.erase(0, 3);
 					if (delivered.compare(0, 2, "\xef\xff") == 0) delivered.erase(0, 2);
 					if (delivered.compare(0, 2, "\xff\xfe") == 0) delivered.erase(0, 2);
+					if (raw_delivered != delivered) j["delivered_raw"] = raw_delivered;
+					if (read_failed) j["read_failed"] = true;      // the read ended with an I/O error (or never reached the end of the file)
 					j["opened"] = opened; j["ok"] = ok; j["delivered"] = delivered; if (never_opened) j["never_opened"] = true;
 					at.push(j);
 					assets_total++;
